@@ -272,11 +272,47 @@ def convert(ctx):
                     if h is not None and id(h) not in seen:
                         collect(h, chain + [(node, f)], seen | {id(h)})
         collect(fn, [], {id(fn)})
+        # helpers reached through a static module-level table ({'INTEGER': _deserialize_integer, ..}): a call of a local name bound
+        # from a lookup in such a table may call every function of the table
+        mod = fn._module
+        tables = {}
+        for st in mod.tree.body:
+            if isinstance(st, ast.Assign) and len(st.targets) == 1 and isinstance(st.targets[0], ast.Name) and isinstance(st.value, ast.Dict):
+                tables[st.targets[0].id] = [v.id for v in st.value.values if isinstance(v, ast.Name)]
+        table_calls = []      # (call, table names)
+        for n in ast.walk(fn):
+            if isinstance(n, ast.Assign) and len(n.targets) == 1 and isinstance(n.targets[0], ast.Name):
+                used = [x.id for x in ast.walk(n.value) if isinstance(x, ast.Name) and x.id in tables]
+                if used:
+                    var = n.targets[0].id
+                    for c2 in [x for x in ast.walk(fn) if isinstance(x, ast.Call) and isinstance(x.func, ast.Name) and x.func.id == var]:
+                        table_calls.append((c2, used))
+            if isinstance(n, ast.Call) and not isinstance(n.func, ast.Name):
+                used = [x.id for x in ast.walk(n.func) if isinstance(x, ast.Name) and x.id in tables]
+                # TABLE.get(k)(value) / TABLE[k](value): the callee comes out of the table (TABLE.get(k) itself is not such a call)
+                if used and isinstance(n.func, (ast.Call, ast.Subscript)):
+                    table_calls.append((n, used))
+        for c2, used in table_calls:
+            for tname in used:
+                for fname in tables[tname]:
+                    if fname in PARTIAL_CONVERTERS:
+                        # the table hands out a partial converter itself (e.g. float): the call site is the converter site
+                        fake = ast.copy_location(ast.Call(func=ast.Name(id=fname, ctx=ast.Load()), args=c2.args, keywords=[]), c2)
+                        for a_ in ast.walk(fake):
+                            a_._module = fn._module
+                        fake._parent = c2._parent
+                        fake._stands_for = c2
+                        sites.append((fake, fn, []))
+                        continue
+                    h = next((x for x in mod.tree.body if isinstance(x, ast.FunctionDef) and x.name == fname), None)
+                    if h is not None and repo.is_helper('%s:%s' % (mod.name, fname)):
+                        collect(h, [(c2, fn)], {id(fn), id(h)})
         if len(sites) < 3:
             raise AnalysisError('%s: only %d partial converters found in %s' % (loc(fn), len(sites), q))
         for c, f, chain in sites:
             d = dotted(c.func)
-            guarded, how = _guarded(c, f)
+            guarded, how = _guarded(getattr(c, '_stands_for', c), f, converter=(d if hasattr(c, '_stands_for') else None)) if hasattr(c, '_stands_for') \
+                else _guarded(c, f)
             for call_site, caller in reversed(chain):
                 if guarded:
                     break
